@@ -135,12 +135,18 @@ def extract(units, repo=None, extra_units=None, tier="quick"):
     key = _tree_hash(repo, [os.path.join(VERIF, "tu"), os.path.join(VERIF, "selftest")])
     cache = os.path.join(VERIF, ".cache", key + "-" + hashlib.sha256(repo.encode()).hexdigest()[:8])
     os.makedirs(cache, exist_ok=True)
-    # prune old caches
+    try:
+        os.utime(cache, None)
+    except OSError:
+        pass
+    # prune old caches: keep the 6 most recently used, and never remove one used in the last half hour (a concurrent run may be reading it)
     try:
         root = os.path.join(VERIF, ".cache")
+        now = time.time()
         olds = sorted((os.path.getmtime(os.path.join(root, d)), d) for d in os.listdir(root))
-        for _, d in olds[:-6]:
-            shutil.rmtree(os.path.join(root, d), ignore_errors=True)
+        for mt_, d in olds[:-6]:
+            if now - mt_ > 1800:
+                shutil.rmtree(os.path.join(root, d), ignore_errors=True)
     except OSError:
         pass
     rdir = _resource_dir()
